@@ -672,8 +672,15 @@ class Flow(object):
             return self._composite(nm, [a], ("len", a))
         if recv is None and name == "int" and len(args) == 1 and \
                 not e.keywords:
-            nm = "int(%r)" % (args[0],)
-            return self._composite(nm, args, ("int", args[0]))
+            a0 = args[0]
+            # truncation toward zero is odd: int(-v) == -int(v); keep the
+            # form whose leading coefficient is positive
+            if a0.t and all(c < 0 for c in a0.t.values()):
+                pos = a0 * -1
+                nm = "int(%r)" % (pos,)
+                return self._composite(nm, [pos], ("int", pos)) * -1
+            nm = "int(%r)" % (a0,)
+            return self._composite(nm, args, ("int", a0))
         if recv is None and name == "abs" and len(args) == 1:
             nm = "abs(%r)" % (args[0],)
             return self._composite(nm, args, ("abs", args[0]))
